@@ -1879,3 +1879,148 @@ def c09(ctx):
             ctx.violation(problem, {"input": {"chain": c["chain"], "src": c["src"], "given_as": how},
                                     "combined": cb[-800:], "chained": sb[-800:],
                                     "reproduce": "gopatch -p c0.patch -p c1.patch ... a.go   versus   gopatch -p c0.patch a.go; gopatch -p c1.patch a.go; ..."})
+
+# --- C17 -------------------------------------------------------------------
+def inject_comments(rng, src):
+    """add comments of every kind to a generated source; returns None if nothing sensible can be done"""
+    lines = src.split("\n")
+    out = []
+    n = 0
+    depth = 0
+    for i, l in enumerate(lines):
+        stripped = l.strip()
+        is_decl_start = l.startswith(("func ", "type ", "var ", "const ")) and depth == 0
+        if is_decl_start and rng.random() < 0.6:
+            n += 1
+            out.append(rng.choice([f"// Doc comment {n} for the declaration.", f"// doc {n} line one\n// doc {n} line two", f"/* block doc {n} */", f"//go:generate echo {n}", f"//nolint:all // reason {n}"]))
+        elif stripped and not stripped.startswith(("package", "import", ")", '"')) and rng.random() < 0.12:
+            n += 1
+            ind = l[: len(l) - len(l.lstrip())]
+            out.append(ind + rng.choice([f"// free-standing {n}", f"/* free block {n} */", f"// TODO({n}): something"]))
+        if stripped and not stripped.startswith(("package", "import")) and "`" not in l and rng.random() < 0.2 and not stripped.endswith(("(", ",")):
+            n += 1
+            l = l + rng.choice([f" // eol {n}", f" /* eol block {n} */"])
+        if "(" in l and ")" in l and rng.random() < 0.05 and '"' not in l and "'" not in l and "`" not in l:
+            n += 1
+            l = l.replace("(", f"( /* in {n} */ ", 1)
+        out.append(l)
+        depth += l.count("{") - l.count("}")
+        if depth == 0 and stripped == "}" and rng.random() < 0.2:
+            n += 1
+            out.append("")
+            out.append(f"// detached comment {n} between declarations")
+            out.append("")
+    if n == 0:
+        return None
+    text = "\n".join(out)
+    hdr = rng.choice(["", "// Copyright header.\n// Second line.\n\n", "//go:build linux\n\n", "// Package doc comment.\n", "/* block header */\n\n// Package p does things.\n"])
+    return hdr + text
+
+@prop("C17")
+def c17(ctx):
+    ctx.level = "proof"
+    ctx.rule = ("generated (patch, file) pairs whose file is decorated with comments of every kind (doc line/block, directives "
+                "//go:build //go:generate //nolint, end-of-line, free-standing, inside expressions, detached between declarations, "
+                "copyright / package header); the real binary rewrites the file (--print-only); go/parser extracts, for input and "
+                "output, the comments belonging to each top-level declaration (doc group, inside, trailing on its last line) and the "
+                "header comments. Checked: declarations whose canonical syntax is unchanged keep exactly their comments in order; "
+                "header/package comments unchanged; no comment text appears more often than in the input. Non-trivial = the file was "
+                "rewritten and has at least one untouched declaration with comments; distinct = distinct (patch, file).")
+    rng = random.Random(ctx.seed)
+    n = 250 if ctx.tier == "quick" else 8000
+    cases = [c for c in gen_cases(ctx, "c05", n, ctx.seed) if len(c.get("patches", [])) >= 1]
+    jobs = []
+    for i, c in enumerate(cases):
+        src = inject_comments(rng, c["src"])
+        if src is None:
+            continue
+        jobs.append((f"c{i}", c["patches"], src))
+    def one(job):
+        cid, patches, src = job
+        root = ctx.scratch("c17")
+        with open(os.path.join(root, "a.go"), "w") as f:
+            f.write(src)
+        pargs = []
+        for k, p in enumerate(patches):
+            with open(os.path.join(root, f"p{k}.patch"), "w") as f:
+                f.write(p)
+            pargs += ["-p", f"p{k}.patch"]
+        code, out, err = cl.gopatch(ctx.gopatch, root, pargs + ["--print-only", "-v", "a.go"])
+        shutil.rmtree(root, ignore_errors=True)
+        o = out.decode("utf-8", "replace")
+        patched = o.rstrip("\n").endswith(": patched")
+        body = o[: o.rstrip("\n").rfind("\n") + 1] if "\n" in o.rstrip("\n") else ""
+        return cid, patches, src, code, patched, body
+    with ThreadPoolExecutor(max_workers=16) as ex:
+        runs = list(ex.map(one, jobs))
+    c17_intervals_tie(ctx, jobs)
+    d = ctx.scratch("cc")
+    pth = os.path.join(d, "in.jsonl")
+    meta = {}
+    with open(pth, "w") as f:
+        for cid, patches, src, code, patched, body in runs:
+            ctx.evaluations += 1
+            if code != 0 or not patched:
+                ctx.count("unpatched")
+                continue
+            f.write(json.dumps({"id": cid, "orig": src, "out": body}) + "\n")
+            meta[cid] = (patches, src, body)
+    r = run([ctx.harness, "commentcheck", "-inputs", pth])
+    if r.returncode != 0:
+        ctx.broken("harness", "commentcheck failed: " + r.stderr[-1500:])
+        return
+    for l in r.stdout.splitlines():
+        o = json.loads(l)
+        patches, src, body = meta[o["id"]]
+        if o.get("skip"):
+            ctx.count("skip:" + o["skip"])
+            continue
+        ctx.count("checked")
+        ctx.count("untouched_decls", o["untouched"])
+        if o["untouched"] > 0 and o["comments"] > 0:
+            ctx.nontrivial.add(patches[0] + src)
+        if len(ctx.samples) < 2 and o["untouched"] > 0:
+            ctx.sample({"patch": patches[0][:300], "src": src[:500], "untouched_declarations": o["untouched"], "comments": o["comments"]})
+        if o.get("problems"):
+            ctx.violation("; ".join(o["problems"][:2])[:600], {"input": {"patches": patches, "src": src}, "output": body,
+                                                                 "problems": o["problems"],
+                                                                 "reproduce": "gopatch -p p0.patch --print-only a.go"})
+
+def c17_intervals_tie(ctx, jobs):
+    """Lean filterComments on the changed intervals of the real engine vs the comments of the real output"""
+    d = ctx.scratch("iv")
+    pth = os.path.join(d, "in.jsonl")
+    with open(pth, "w") as f:
+        for cid, patches, src in jobs:
+            if len(patches) == 1:
+                f.write(json.dumps({"id": cid, "patches": patches, "src": src}) + "\n")
+    r = run([ctx.harness, "intervals", "-inputs", pth, "-out", d], timeout=1800)
+    if r.returncode != 0:
+        ctx.broken("harness", "zzverif intervals failed: " + r.stderr[-1500:])
+        return
+    with open(os.path.join(d, "intervals.cases")) as fin:
+        m = subprocess.run([ctx.driver], stdin=fin, stdout=subprocess.PIPE, stderr=subprocess.PIPE, text=True, timeout=1800)
+    impl = open(os.path.join(d, "intervals.impl")).read().splitlines()
+    model = m.stdout.splitlines()
+    byid = {cid: (patches, src) for cid, patches, src in jobs}
+    if len(impl) != len(model):
+        ctx.broken("driver", f"intervals stream: impl {len(impl)} model {len(model)}")
+        return
+    for a, b in zip(impl, model):
+        ctx.evaluations += 1
+        ctx.count("intervals_cases")
+        if a != b:
+            sa, sb_ = parse_sx(a), parse_sx(b)
+            got = [cl.sx_unquote(x) for x in (sx_field(sa[2:], "survivors") or [])]
+            want = [cl.sx_unquote(x) for x in (sx_field(sb_[2:], "survivors") or [])]
+            lost = sorted(set(want) - set(got))
+            extra = [x for x in got if got.count(x) > want.count(x)]
+            patches, src = byid.get(sa[1], ([""], ""))
+            if extra:
+                ctx.violation(f"the output contains comments that the comment filter should have removed or that are duplicated: {extra[:3]}",
+                              {"input": {"patches": patches, "src": src}})
+            elif lost:
+                ctx.count("printer_dropped_comment")
+                ctx.extra.setdefault("printer_dropped_examples", [])
+                if len(ctx.extra["printer_dropped_examples"]) < 3:
+                    ctx.extra["printer_dropped_examples"].append({"lost": lost[:3], "patch": patches[0][:200]})
